@@ -196,6 +196,7 @@ type prover struct {
 	inProgress     map[*ssa.Function]bool
 	retCache       map[retKey]retEntry
 	axiomsUsed     map[string]bool
+	importDepth    int
 	preCache       map[*ssa.Function]preEntry
 	gen            int // generation: tainted cache entries are recomputed once per generation (facts only grow)
 	preBusy        map[*ssa.Function]bool
@@ -1289,6 +1290,7 @@ func (p *prover) collectMulti(fn *ssa.Function, at ssa.Instruction, goalTerms []
 		p.defs(s, f.a, seen, 0)
 		p.defs(s, f.b, seen, 0)
 	}
+	p.importCallerFacts(s, fn, seen)
 	if p.inProgress[fn] && !direct {
 		p.taint = true // the invariants of fn are not available yet: what is derived now must not be cached
 	}
@@ -2087,6 +2089,89 @@ func isSeqType(t types.Type) bool {
 }
 
 // ---- parameter preconditions: candidate facts over the parameters that hold at every call site of the module
+
+// importCallerFacts: a function with exactly one call site in the module (an extracted helper) is entered in the state of
+// that site. Everything known there (guards, the caller's own preconditions and invariants) is imported as it is — the
+// caller's SSA values are just further variables of the linear system — and linked to the helper's world by equalities:
+// argument i = parameter i (values and lengths), and the load of an immutable field of an argument object = the load of
+// the same field through the parameter. Candidate-template preconditions (preconds) cannot express a guard such as
+// len(value) > obj.maxLength + len(obj.suffix); this can.
+func (p *prover) importCallerFacts(s *factSet, fn *ssa.Function, seen map[term]bool) {
+	if p.importDepth >= 2 || fn.Parent() != nil {
+		return
+	}
+	sites, ok := p.knownCallers(fn)
+	if !ok || len(sites) != 1 {
+		return
+	}
+	site := sites[0]
+	caller := site.Parent()
+	if caller == fn || caller.Blocks == nil {
+		return
+	}
+	if _, isCall := site.(*ssa.Call); !isCall {
+		return
+	}
+	args := site.Common().Args
+	if len(args) != len(fn.Params) {
+		return
+	}
+	p.importDepth++
+	cs, _ := p.collectMulti(caller, site.(ssa.Instruction), nil, nil, false)
+	p.importDepth--
+	if len(cs.fs) > 400 {
+		return
+	}
+	s.fs = append(s.fs, cs.fs...)
+	eq := func(a, b term) {
+		s.le(a, b, 0)
+		s.le(b, a, 0)
+	}
+	fieldReps := func(f *ssa.Function, obj ssa.Value) map[int]ssa.Value {
+		out := map[int]ssa.Value{}
+		eachInstr(f, func(in ssa.Instruction) {
+			u, ok := in.(*ssa.UnOp)
+			if !ok || u.Op != token.MUL {
+				return
+			}
+			fa, ok := strip(u.X).(*ssa.FieldAddr)
+			if !ok || resolve(fa.X) != resolve(obj) || !p.immutableField[fieldName(fa.X.Type(), fa.Field)] {
+				return
+			}
+			if _, have := out[fa.Field]; !have {
+				out[fa.Field] = u
+			}
+		})
+		return out
+	}
+	for i, prm := range fn.Params {
+		a := args[i]
+		switch {
+		case isIntType(prm.Type()):
+			eq(valT(a), valT(prm))
+			p.defs(s, valT(a), seen, 0)
+		case isSeqType(prm.Type()):
+			eq(lenT(a), lenT(prm))
+			p.defs(s, lenT(a), seen, 0)
+		default:
+			if _, isPtr := prm.Type().Underlying().(*types.Pointer); !isPtr {
+				continue
+			}
+			inCallee, inCaller := fieldReps(fn, prm), fieldReps(caller, a)
+			for fi, cu := range inCallee {
+				ou, ok := inCaller[fi]
+				if !ok {
+					continue
+				}
+				if isIntType(cu.Type()) {
+					eq(valT(ou), valT(cu))
+				} else if isSeqType(cu.Type()) {
+					eq(lenT(ou), lenT(cu))
+				}
+			}
+		}
+	}
+}
 
 func (p *prover) preconds(fn *ssa.Function) []fact {
 	if e, ok := p.preCache[fn]; ok && (!e.tainted || e.gen == p.gen) {
